@@ -237,11 +237,20 @@ func (r *Reader) GetAttachmentReader(offset uint64) (*AttachmentReader, error) {
 }
 
 func (r *Reader) GetMetadata(offset uint64) (*Metadata, error) {
-	_, err := r.rs.Seek(int64(offset), io.SeekStart)
+	// like Info, leave the shared stream where it was: a scan obtained afterwards (fall-back
+	// for files without a usable index, or UsingIndex(false)) continues from the current position
+	pos, err := r.rs.Seek(0, io.SeekCurrent)
+	if err != nil {
+		return nil, fmt.Errorf("failed to get current stream position: %w", err)
+	}
+	_, err = r.rs.Seek(int64(offset), io.SeekStart)
 	if err != nil {
 		return nil, err
 	}
 	token, data, err := r.l.Next(nil)
+	if _, seekErr := r.rs.Seek(pos, io.SeekStart); seekErr != nil && err == nil {
+		err = fmt.Errorf("failed to restore stream position: %w", seekErr)
+	}
 	if err != nil {
 		return nil, err
 	}
